@@ -494,6 +494,15 @@ def call_method(h: Any, recv: AV, name: str, args: List[AV], kwargs: Dict[str, A
             h.note_mutation(recv, (name,), node)
         if name == "get":
             default = args[1] if len(args) > 1 else kwargs.get("default", NONE)
+            if isinstance(args[0], SymChar):
+                fx = ctx.char_fixed.get(args[0].id)
+                if fx is not None:
+                    return recv.items.get(hkey(Const(fx)), default)
+                for k in sorted(recv.items, key=repr):
+                    kav = recv.keys_av[k]
+                    if isinstance(kav, Const) and isinstance(kav.value, str) and len(kav.value) == 1 and h.char_is(args[0], kav.value):
+                        return recv.items[k]
+                return default
             try:
                 hk = hkey(args[0])
             except Unsupported:
@@ -548,6 +557,34 @@ def call_method(h: Any, recv: AV, name: str, args: List[AV], kwargs: Dict[str, A
             pargs = [_plain(a) for a in args]
             pkw = {k: _plain(v) for k, v in kwargs.items()}
         except ValueError:
+            if name == "format":
+                import string as _string
+
+                parts: List[AV] = []
+                auto = 0
+                ok = True
+                for lit_, field, spec, conv in _string.Formatter().parse(recv.value):
+                    if lit_:
+                        parts.append(Const(lit_))
+                    if field is None:
+                        continue
+                    if spec:
+                        ok = False
+                        break
+                    if field == "":
+                        val = args[auto] if auto < len(args) else None
+                        auto += 1
+                    elif field.isdigit():
+                        val = args[int(field)] if int(field) < len(args) else None
+                    else:
+                        val = kwargs.get(field)
+                    if val is None:
+                        raise h.raise_("IndexError", "format field out of range", node)
+                    parts.append(h.to_str(val, repr_=(conv == "r"), node=node))
+                if ok:
+                    if all(isinstance(x, Const) for x in parts):
+                        return Const("".join(x.value for x in parts))
+                    return Term("fstr", tuple(parts), ctx.new_id())
             if name == "join":
                 kind, payload = h.iterate(args[0], node)
                 if kind == "concrete":
